@@ -11,7 +11,12 @@ _RULE = ("gridmc over declared finite grids, each point run through the real rkc
          "(x 64 centre points), quatf/quatd::rotate, matrix<-quaternion, quaternion<-matrix (branch decided by the harness, counted per "
          "branch), conj/rcp/normalize; all 1274^2 ordered quaternion pairs: product, quaternion<-matrix of the composed rotation, slerp at "
          "t in {0,1/4,1/2,3/4,1}; yaw/pitch/roll: all 49^3 angle triples; frame(N), frame(N,up): 26 x (1+26); lookat: 64 x 63 eye/point "
-         "pairs x 26 up vectors; scale/translate: {-2,1/2,1,3}^n. distinct = distinct bit patterns of the library results")
+         "pairs x 26 up vectors; scale/translate: {-2,1/2,1,3}^n. Operators: on every 2x2 ordered pair, every kept 3x3 matrix (both orders with one of the "
+         "4 partners, chosen by the entries), every affine map (x one of the 4 partner maps chosen by the translation; 2D: all 4) and every quaternion pair: "
+         "unary +/-, map+map, map-map, scalar*map, map/scalar, map*map and map/map against the reference; A op= B (*=, /=; quaternions also +=, -= "
+         "with scalar and quaternion operands) leaves A equal to A op B and returns A itself; ==/!= including operands differing in one column / "
+         "the offset / one component; clamp, row-major / converting / component constructors, operator L*(), xfmBounds, mixed-type scalar*quaternion; "
+         "partner maps have a non-trivial linear part AND a non-zero translation. distinct = distinct bit patterns of the library results")
 
 _ASSUME = ["the grids are finite subsets of a continuum: the claim is 'every grid point', not 'every real'",
            "condition number = 2-norm condition number of the linear part, evaluated in long double; matrices with kappa > 64 or singular are outside the domain",
